@@ -78,3 +78,12 @@ Theorem C02_source_end_bound : forall first last b v, (first <= last)%N ->
   (first <= v <= last)%N /\ match b with Incl t => v = N.min t last | Excl t => (1 <= t)%N /\ v = N.min (t - 1) last | Unb => v = last end.
 Proof. exact gen_checked_end_spec. Qed.
 Print Assumptions C02_source_end_bound.
+
+(* index.rs in_gap as the current source text makes the comparison (translated on every run): the model's, and true exactly
+   when the timestamp lies beyond the reach of a 16 bit delta behind the full timestamp *)
+Theorem C02_source_in_gap_is_model : forall val gs, in_gap val gs = BSgen.SeekGen.gen_in_gap val gs.
+Proof. exact gen_in_gap_is_model. Qed.
+Print Assumptions C02_source_in_gap_is_model.
+Theorem C02_source_in_gap : forall val gs b, BSgen.SeekGen.gen_in_gap val gs = Ok b -> (b = true <-> (gs + 65534 < val)%N).
+Proof. exact gen_in_gap_spec. Qed.
+Print Assumptions C02_source_in_gap.
